@@ -13,3 +13,4 @@ open Biogo.Properties.C15
 #print axioms edit_bounded_by_threshold
 #print axioms suppression_returns_emitted_hits
 #print axioms suppression_keeps_best
+#print axioms optimise_sound
